@@ -78,7 +78,7 @@ def handleInv1 (ins outs : List J) : Verdict :=
     -- the code's own CDF at x(1 − 1e-9) and at x(1 + 1e-9), relative to y's own size (the CDF is C05's subject)
     match yJ.rat?, gJ.flt?, cAtJ.rat?, cBelowJ.rat? with
     | some y, some (.fin _), some cAt, some cBelow =>
-      let slack := y / 1000000 + 1 / 1000000000000
+      let slack := y / 1000000 + 1 / pow2 1000      -- relative to y itself: far-tail quantiles count
       verdictOf "nt builtin continuous" [("inv-continuous", decide (cBelow ≤ y + slack) && decide (y ≤ cAt + slack),
         s!"y={ratStr y} cdf(x-dx)={ratStr cBelow} cdf(x+dx)={ratStr cAt}")]
     | _, _, _, _ => .badOp "inv cont: parse"
